@@ -67,6 +67,17 @@ def rule(ctx, files):
                     continue
                 why = BASELINE.get((m.name, q.split(".")[-1])) or \
                     BASELINE.get((m.name, q))
+                if not why and "." not in q and q.startswith("_"):
+                    # a private helper that only the accepted function
+                    # calls: the accepted handler moved with its code
+                    callers = {q2 for q2, f2 in m.funcs.items()
+                               if f2 is not fn and any(
+                                   isinstance(c, ast.Call) and isinstance(
+                                       c.func, ast.Name) and c.func.id == q
+                                   for c in ast.walk(f2))}
+                    whys = {BASELINE.get((m.name, c)) for c in callers}
+                    if callers and None not in whys and len(whys) == 1:
+                        why = whys.pop()
                 if why:
                     ctx.ok(h, f"{m.name}.{q}: {why}")
                     continue
